@@ -100,8 +100,10 @@ namespace rkcommon {
             std::unique_lock<std::mutex> lock(l->runningMutex);
             l->runningCond.wait(lock, [&] {
               RKCOMMON_VERIF_POINT("loop.in_predicate", l.get());
+              return RKCOMMON_VERIF_EVAL("loop.predicate", l.get(), [&] {
               return l->shouldBeRunning.load() ||
                      !l->threadShouldBeAlive.load();
+              }());
             });
             RKCOMMON_VERIF_POINT("loop.after_wait", l.get());
           }
